@@ -152,8 +152,9 @@ func cfgFor(profile string, i int) map[string]interface{} {
 		}
 		switch i % 6 {
 		case 3:
-			// 30 000 coins before the first halving point of the subsidy (TOTAL_REWARD / 2): the age goes 0 -> 1 in the trace
-			return map[string]interface{}{"blockReward": 2520, "baseline": 0, "rewardBase": "199999999970000"}
+			// twelve block rewards before the first halving point of the subsidy (TOTAL_REWARD / 2): the twelfth minted block
+			// lands EXACTLY on the boundary, the thirteenth must already be halved (the age goes 0 -> 1 in the trace)
+			return map[string]interface{}{"blockReward": 2520, "baseline": 0, "rewardBase": "199999999969760"}
 		case 4:
 			// everything has been minted already: no subsidy at all
 			return map[string]interface{}{"blockReward": 2520, "baseline": 0, "rewardBase": "400000000000000"}
